@@ -51,21 +51,39 @@ fn segments(cfg: &Cfg) -> Vec<Seg> {
             }
         }
         Tier::Thorough => {
+            // nine shapes get every layout of up to three fields over all 16
+            // classes and every four-field layout over the quick classes; the
+            // other five shapes (second orientation of the generic record,
+            // one-variant enum, first variant of the three-variant enum,
+            // Result.Err, Verdict.Accept) get the layouts of up to two fields
+            // over all classes and of three fields over the quick classes
+            let main = vec![
+                Shape::Named,
+                Shape::Generic,
+                Shape::Anon,
+                Shape::Enum2,
+                Shape::Enum3B,
+                Shape::GenEnum,
+                Shape::Opt,
+                Shape::ResOk,
+                Shape::VerRej,
+            ];
+            let rest: Vec<Shape> = ALL_SHAPES.iter().copied().filter(|s| !main.contains(s)).collect();
             for len in 1..=2 {
                 v.push(Seg { alpha: FULL.len(), len, shapes: all.clone(), modulus: 1, residue: 0 });
             }
-            v.push(Seg { alpha: QUICK, len: 3, shapes: all.clone(), modulus: 1, residue: 0 });
-            v.push(Seg { alpha: FULL.len(), len: 3, shapes: all.clone(), modulus: 1, residue: 0 });
-            v.push(Seg { alpha: QUICK, len: 4, shapes: all.clone(), modulus: 1, residue: 0 });
+            v.push(Seg { alpha: QUICK, len: 3, shapes: rest, modulus: 1, residue: 0 });
+            v.push(Seg { alpha: FULL.len(), len: 3, shapes: main.clone(), modulus: 1, residue: 0 });
+            v.push(Seg { alpha: QUICK, len: 4, shapes: main, modulus: 1, residue: 0 });
             // the 65536 four-field layouts over all 16 classes: named record,
             // anonymous record and two-variant enum; VERIF_SEED selects which
-            // sixteenth is enumerated (completely) in this run
+            // 1/32 of them is enumerated (completely) in this run
             v.push(Seg {
                 alpha: FULL.len(),
                 len: 4,
                 shapes: vec![Shape::Named, Shape::Anon, Shape::Enum2],
-                modulus: 16,
-                residue: (cfg.seed % 16) as usize,
+                modulus: 32,
+                residue: (cfg.seed % 32) as usize,
             });
         }
     }
@@ -167,6 +185,19 @@ impl Fun {
 }
 
 const SINGLE: u64 = 0xFF;
+const GETFN: u64 = 0xFE;
+
+/// Mark a preparatory step of a program (compile on its own, function
+/// look-up). In a replay of another step of the same program it is part of
+/// the set-up.
+fn mark(cx: &mut Cx, sub: u64) -> bool {
+    match cx.only() {
+        Some(o) if o != sub => cx.case(SUB_SETUP),
+        _ => cx.case(sub),
+    }
+}
+/// sub id of the batch compile of a unit
+const BATCH: u64 = (1 << 40) | 0xFD;
 
 struct C02;
 
@@ -187,9 +218,13 @@ impl Check for C02 {
         let Some(u) = build_unit(&cx.cfg, unit) else { return };
         let rt = host::runtime();
         let batch = u.batch();
-        // a replay only needs the one program
         let t0 = std::time::Instant::now();
-        let mut pkg = if cx.only().is_some() { None } else { host::compile(&rt, &print_program(&batch)).ok() };
+        // a replay of one program compiles only that program (on its own)
+        let only_prog = cx.only().filter(|s| *s != SUB_SETUP && *s != BATCH).map(|s| (s >> 8) as usize);
+        // (if the batch compile killed an earlier worker, cx.case(BATCH) is false
+        // and every program is compiled on its own)
+        let mut pkg = if only_prog.is_some() || !cx.case(BATCH) { None } else { host::compile(&rt, &print_program(&batch)).ok() };
+        cx.case(SUB_SETUP);
         cx.count("ms_batch_compile", t0.elapsed().as_millis() as u64);
         let mut us_model = 0u128;
         let mut us_call = 0u128;
@@ -197,6 +232,14 @@ impl Check for C02 {
             cx.count("batches_split", 1);
         }
         for (i, (di, pr)) in u.progs.iter().enumerate() {
+            if only_prog.is_some_and(|o| o != i) || cx.only() == Some(SUB_SETUP) || cx.only() == Some(BATCH) {
+                continue;
+            }
+            // a program that killed a worker on one input is not run on the other
+            if cx.skipped_cases().iter().any(|s| *s != BATCH && (s >> 8) as usize == i) {
+                cx.count("programs_skipped_after_crash", 1);
+                continue;
+            }
             let d = &u.descs[*di];
             let base = (i as u64) << 8;
             let mut single;
@@ -204,7 +247,8 @@ impl Check for C02 {
             let (pk, model): (&mut Package<NoCtx>, &Program) = match pkg.as_mut() {
                 Some(pk) if !pr.solo => (pk, &batch),
                 _ => {
-                    if !cx.case(base | SINGLE) {
+                    // (in a replay of a call the compile is part of the set-up)
+                    if !mark(cx, base | SINGLE) {
                         continue;
                     }
                     single_prog = standalone(d, pr);
@@ -230,10 +274,13 @@ impl Check for C02 {
                     }
                 }
             };
+            if !mark(cx, base | GETFN) {
+                continue;
+            }
             let f = match get_fun(pk, &pr.entry, pr.ret) {
                 Ok(f) => f,
                 Err(e) => {
-                    cx.violation("get_function", base | SINGLE, u.case_json(i, None), json!("Ok"), json!(e));
+                    cx.violation("get_function", base | GETFN, u.case_json(i, None), json!("Ok"), json!(e));
                     continue;
                 }
             };
@@ -318,7 +365,7 @@ impl Check for C02 {
     }
     fn describe(&self, cfg: &Cfg, unit: usize, sub: u64) -> Value {
         let Some(u) = build_unit(cfg, unit) else { return json!({"unit": unit}) };
-        if sub == SUB_SETUP {
+        if sub == SUB_SETUP || sub == BATCH {
             return json!({"phase": "batch compile", "layout": u.fields.iter().map(|f| f.name()).collect::<Vec<_>>(), "program": print_program(&u.batch())});
         }
         let i = (sub >> 8) as usize;
@@ -326,9 +373,11 @@ impl Check for C02 {
             return json!({"unit": unit, "sub": sub});
         }
         let low = sub & 0xFF;
-        let mut v = u.case_json(i, if low == SINGLE { None } else { Some(low == 1) });
+        let mut v = u.case_json(i, if low >= GETFN { None } else { Some(low == 1) });
         if low == SINGLE {
             v["phase"] = json!("single compile");
+        } else if low == GETFN {
+            v["phase"] = json!("get_function");
         }
         v
     }
